@@ -287,6 +287,9 @@ func vh_C10_manager_history() {
 		verifReach("legacy-ticket")
 	}
 	s1 := mk("s1")
+	if ndBool("second-session-never-stamped") {
+		s1.CreatedAt = nil // e.g. a form sign-in: Save stamps it
+	}
 	rw1 := &vRW{}
 	carried := ndBool("second-save-carries-the-cookie")
 	var err1 error
